@@ -243,6 +243,7 @@ func ruleTextUnmodified(c *eng.Ctx) {
 // R17.4 [C17] (applied to every OOXML/ODF/EPUB reader)
 func ruleFreshDecodeTarget(c *eng.Ctx) {
 	const R = "R17.4-FRESH-DECODE-TARGET"
+	freshProg = c.P
 	c.Rule(R, "every xml.Unmarshal / Decoder.Decode / DecodeElement in the document readers decodes into storage allocated in the same function (a local, or a field that was just assigned a new value): encoding/xml appends to existing slices and keeps stale pointers, so a reused destination leaks the previous part's cells, merges or paragraphs into the next one", 20, 0)
 	for _, fn := range c.P.ModuleFuncs() {
 		if fn.Pkg == nil {
@@ -272,6 +273,8 @@ func ruleFreshDecodeTarget(c *eng.Ctx) {
 	}
 }
 
+var freshProg *eng.Prog
+
 // freshStorage: v (a pointer passed as decode destination) points to storage allocated in fn.
 func freshStorage(fn *ssa.Function, v ssa.Value, at ssa.Instruction, depth int) (bool, string) {
 	if depth > 4 {
@@ -291,6 +294,34 @@ func freshStorage(fn *ssa.Function, v ssa.Value, at ssa.Instruction, depth int) 
 				root = root.Parent()
 			}
 			if root.Name() == "UnmarshalXML" {
+				return true, ""
+			}
+		}
+		// a helper of a decoder that receives the destination: fresh when every call site in the package passes
+		// fresh storage
+		if freshProg != nil && fn != nil && depth < 3 {
+			idx := -1
+			for i, q := range fn.Params {
+				if q == x {
+					idx = i
+				}
+			}
+			sites, all := 0, true
+			for _, g := range freshProg.ModuleFuncs() {
+				if g.Pkg != fn.Pkg {
+					continue
+				}
+				for _, ci := range eng.Calls(g, true, func(string, ssa.CallInstruction) bool { return true }) {
+					if ci.Common().StaticCallee() != fn || idx < 0 || idx >= len(ci.Common().Args) {
+						continue
+					}
+					sites++
+					if ok, _ := freshStorage(ci.Parent(), eng.Unwrap(ci.Common().Args[idx]), ci, depth+1); !ok {
+						all = false
+					}
+				}
+			}
+			if sites > 0 && all {
 				return true, ""
 			}
 		}
